@@ -362,3 +362,15 @@ def _regen_loop_tt(par, gen_node, fn):
         if blocking:
             tests.append((show(node["r"]), node["a"][0]))
     return loop, tests, loop["k"] if tests else "loop-unguarded"
+
+
+def yields_err(fn_body, if_node, block):
+    """Does `block` (a branch of `if_node`) leave the function with an Err: a `return Err(..)` inside it, or - when the `if` is the function's tail
+    expression - an `Err(..)` as the branch's own value?"""
+    from synq import walk, show, tail_expr
+    if any(r.get("k") == "return" and show(r.get("e"), maxdepth=4).startswith("Err(") for r in walk(block)):
+        return True
+    t = tail_expr(block) if block.get("k") == "block" else block
+    if t is not None and show(t, maxdepth=4).startswith("Err(") and tail_expr(fn_body) is if_node:
+        return True
+    return False
